@@ -51,6 +51,9 @@ StringCmds ==
   \cup {C("GETSET", <<k, v>>) : k \in Keys, v \in {S("va"), S("vb")}} \cup {C("SETNX", <<k, v>>) : k \in Keys, v \in {S("va"), S("vb")}}
   \cup {C("SET", <<k, S("vb"), W("XX")>>) : k \in Keys} \cup {C("SET", <<k, S("va"), W("GET")>>) : k \in Keys}
   \cup {C("SET", <<S("ka"), S("vb"), W("KEEPTTL")>>), C("SET", <<S("ka"), S("va"), W("EX"), I(300)>>), C("SETEX", <<S("ka"), I(400), S("vb")>>)}
+  \* a key that expires during the program: SET .. PX 30, then (pseudo-command, only while such a key exists) a pause of 80 ms;
+  \* the driver turns SLEEP into a real pause between two batches of requests
+  \cup {C("SET", <<k, S("vb"), W("PX"), I(30)>>) : k \in Keys} \cup {C("SLEEP", <<I(80)>>)}
   \cup {C("APPEND", <<k, v>>) : k \in Keys, v \in {S("va"), S("s:crlf"), S("5")}} \cup {C("STRLEN", <<k>>) : k \in Keys}
   \cup {C("GETRANGE", <<k, I(a), I(b)>>) : k \in Keys, a \in {0, 1, 0 - 2}, b \in {0 - 1, 1, 5}}
   \cup {C("INCR", <<k>>) : k \in Keys} \cup {C("DECR", <<k>>) : k \in Keys}
@@ -94,18 +97,21 @@ Cmds == Generic \cup (CASE Type = "string" -> StringCmds [] Type = "hash" -> Has
                         [] Type = "set" -> SetCmds [] Type = "zset" -> ZSetCmds)
 
 \* tokens of word/int/float kinds have no bytes in the generator; the model only needs bytes of string tokens
-Run(k, c) == LET r == Exec(k, IF c.name = "keys" THEN "KEYS" ELSE c.name, c.args) IN IF r.cmp \in {"any", "error"} THEN k ELSE r.ks
+Run(k, c) == IF c.name = "SLEEP" THEN Advance(k, c.args[1].n) ELSE
+             LET r == Exec(k, IF c.name = "keys" THEN "KEYS" ELSE c.name, c.args) IN IF r.cmp \in {"any", "error"} THEN k ELSE r.ks
 
 Init == prog = <<>> /\ ks = EmptyKS
 \* (in simulation TLC evaluates invariants on every successor it generates, so the last step of a random walk is a
 \* fixed command: one exported program per walk)
 Last == C("KEYS", <<S("*")>>)
 Next == /\ Len(prog) < (IF Sim THEN SimLen ELSE MaxLen)
-        /\ \E c \in (IF Sim /\ Len(prog) = SimLen - 1 THEN {Last} ELSE Cmds) : prog' = Append(prog, c) /\ ks' = Run(ks, c)
+        /\ \E c \in (IF Sim /\ Len(prog) = SimLen - 1 THEN {Last} ELSE Cmds) :
+              /\ (c.name = "SLEEP" => \E k \in DOMAIN ks : ks[k].x > 0 /\ ks[k].x <= 1000)
+              /\ prog' = Append(prog, c) /\ ks' = Run(ks, c)
 Spec == Init /\ [][Next]_vars
 
 \* model sanity: this generator only ever produces modelled commands; aggregates never exist empty; one type per key
-Modelled == prog = <<>> => \A c \in Cmds : Exec(EmptyKS, IF c.name = "keys" THEN "KEYS" ELSE c.name, c.args).cmp # "any"
+Modelled == prog = <<>> => \A c \in Cmds \ {C("SLEEP", <<I(80)>>)} : Exec(EmptyKS, IF c.name = "keys" THEN "KEYS" ELSE c.name, c.args).cmp # "any"
 NoEmptyAggregates == \A k \in DOMAIN ks : CASE ks[k].ty = "list" -> ks[k].l # <<>> [] ks[k].ty = "set" -> ks[k].s # {}
                                               [] ks[k].ty = "hash" -> ks[k].h # {} [] ks[k].ty = "zset" -> ks[k].z # {} [] OTHER -> TRUE
 OneType == \A k \in DOMAIN ks : ks[k].ty = Type
